@@ -136,6 +136,7 @@ class MarkRef(Ref):
         self.sidx, self.kind, self.defined1 = sidx, kind, defined1
         self.spec = None
         self._alpha = None
+        self.cpu_row_b = 2          # CPU row of thread B (3: the virtual CPU of the loom)
 
     def init(self):
         # (state of thread A, stack/value of A, of B)
@@ -151,6 +152,9 @@ class MarkRef(Ref):
                         out.append(((o, k, 0, v), Ev(self.sidx[k], mcv, i64(v) + i32(0))))
                     out.append(((o, k, 1, 1), Ev(self.sidx[k], mcv, i64(1) + i32(1))))
                     out.append(((o, k, 7, 1), Ev(self.sidx[k], mcv, i64(1) + i32(7))))
+                    # undefined types that are the Paraver type numbers (100 + t) of the defined ones
+                    out.append(((o, k, 100, 1), Ev(self.sidx[k], mcv, i64(1) + i32(100))))
+                    out.append(((o, k, 101, 1), Ev(self.sidx[k], mcv, i64(1) + i32(101))))
             for op in "prcw":
                 out.append((("H", op), Ev(self.sidx[0], "OH" + op)))
             self._alpha = out
@@ -165,7 +169,7 @@ class MarkRef(Ref):
                 return ("fail", None, "illegal thread transition")
             return ("ok", (nxt, a, b), "thread state change")
         o, k, t, v = label
-        if t == 7 or (t == 1 and not self.defined1):
+        if t in (7, 100, 101) or (t == 1 and not self.defined1):
             return ("fail", None, "mark type not defined by any thread")
         if v == 0:
             return ("fail", None, "zero value")
@@ -199,7 +203,9 @@ class MarkRef(Ref):
         d[("thread", 1, 100)] = va if st in ACTIVE else 0
         d[("thread", 2, 100)] = vb
         d[("cpu", 1, 100)] = va if st == "running" else 0
-        d[("cpu", 2, 100)] = vb
+        d[("cpu", self.cpu_row_b, 100)] = vb
+        if self.cpu_row_b != 2:
+            d[("cpu", 2, 100)] = 0
         return d
 
     def attribute(self, kind, label):
@@ -280,7 +286,9 @@ def run_emulator(ctx, build, scratch, tier):
                     break
     if tier == "quick":
         picks = [p for p in picks if p[1] != "A"] [:3]
-    for (kind, who, da, db) in picks:
+    # the same walks with the second thread on the virtual CPU of the loom (the only thread there: the row shows its marks)
+    picks = [p + (False,) for p in picks] + [p + (True,) for p in picks if p[1] == "both"][:(1 if tier == "quick" else 2)]
+    for (kind, who, da, db, onv) in picks:
         if ctx.out_of_time(0.85):
             ctx.cap("walk %s/%s not started" % (kind, who))
             continue
@@ -291,13 +299,16 @@ def run_emulator(ctx, build, scratch, tier):
         try:
             s = pool.local.streams
             sidx = [s[relA], s[relB]]
-            prefix = [Ev(sidx[0], "OHx", i32(0, 101) + i64(0)), Ev(sidx[1], "OHx", i32(1, 201) + i64(0))]
+            prefix = [Ev(sidx[0], "OHx", i32(0, 101) + i64(0)), Ev(sidx[1], "OHx", i32(-1 if onv else 1, 201) + i64(0))]
+            if onv:
+                who = who + "-vcpu"
             try:
                 pp = PrefixPool(pool, prefix)
             except PrefixRefused as e:
                 report_prefix(ctx, e, "walk-%s-%s" % (kind, who), pool.flags, spec)
                 continue
             ref = MarkRef(sidx, kind, defined1=(db is not None))
+            ref.cpu_row_b = 3 if onv else 2
             ref.spec = {"spec": spec, "marks_A": da, "marks_B": db}
             ex = Explorer(ctx, pp, ref, name="walk-%s-%s" % (kind, who), report_props={"C17"}, check_time=False,
                           max_depth=(4 if tier == "quick" else (8 if tier == "deep" else 6)), max_states=(3000 if tier == "quick" else (400000 if tier == "deep" else 40000)))
